@@ -1,0 +1,68 @@
+//go:build verif
+
+package retention
+
+// Contracts for /verif (gvc). Comment-only file; see /verif/DESIGN.md §5 C14.
+
+//@ prop C14
+
+// Expired shards are computed only from duration information refreshed in the same tick:
+// a nil result means BOTH refreshes returned nil.
+//@ func (*Service).updateDurationInfo
+//@   ghost e1 Iface = nil
+//@   ghost e2 Iface = nil
+//@   ghost n1 int = 0
+//@   ghost n2 int = 0
+//@   call (*Service).updateShardDurationInfo
+//@     set e1 = ret0
+//@     set n1 = n1 + 1
+//@   call (*Service).UpdateIndexDurationInfo
+//@     set e2 = ret0
+//@     set n2 = n2 + 1
+//@   ensures result == nil ==> n1 == 1 && n2 == 1 && e1 == nil && e2 == nil
+
+// A refresh that could not fetch the durations reports an error.
+//@ func (*Service).updateShardDurationInfo
+//@   ghost fetched bool = false
+//@   ghost fe Iface = nil
+//@   call .GetShardDurationInfo
+//@     set fetched = true
+//@     set fe = ret1
+//@   ensures result == nil ==> fetched && fe == nil
+
+//@ func (*Service).UpdateIndexDurationInfo
+//@   ghost fetched bool = false
+//@   ghost fe Iface = nil
+//@   call .GetIndexDurationInfo
+//@     set fetched = true
+//@     set fe = ret1
+//@   ensures result == nil ==> fetched && fe == nil
+
+// The deletion pass runs only after updateDurationInfo returned nil in this tick.
+//@ func (*Service).handle
+//@   ghost upd bool = false
+//@   ghost ue Iface = nil
+//@   call (*Service).updateDurationInfo
+//@     set upd = true
+//@     set ue = ret0
+//@   call (*Service).HandleLocalStorage
+//@     requires upd && ue == nil
+//@   call (*Service).HandleSharedStorage
+//@     requires upd && ue == nil
+
+// Only identifiers reported by the engine as expired are deleted / pruned.
+//@ func (*Service).HandleLocalStorage
+//@   ghost asked bool = false
+//@   ghost askedIdx bool = false
+//@   call .ExpiredShards
+//@     set asked = true
+//@   call .ExpiredIndexes
+//@     set askedIdx = true
+//@   call .DeleteShardGroup
+//@     requires asked && 0 <= i && i < len(expiredShards) && arg2 == expiredShards[i].ShardGroupID && arg0 == expiredShards[i].OwnerDb && arg1 == expiredShards[i].Policy
+//@   call (*Service).DeleteShardOrIndex
+//@     requires (arg3 == ShardDelete ==> asked && 0 <= i && i < len(expiredShards) && arg2 == expiredShards[i].ShardID && arg0 == expiredShards[i].OwnerDb && arg1 == expiredShards[i].OwnerPt)
+//@     requires (arg3 != ShardDelete ==> askedIdx && arg3 == IndexDelete && 0 <= i && i < len(expiredIndexes) && arg2 == expiredIndexes[i].Index.IndexID && arg0 == expiredIndexes[i].OwnerDb)
+//@   call .PruneGroupsCommand
+//@     requires (arg0 ==> asked && 0 <= i && i < len(expiredShards) && arg1 == expiredShards[i].ShardID)
+//@     requires (!arg0 ==> askedIdx && 0 <= i && i < len(expiredIndexes) && arg1 == expiredIndexes[i].Index.IndexID)
